@@ -305,6 +305,15 @@ fn e2e_cases(s: &mut Session, tier: &str, rng: &mut Rng) {
                     s.oracle_fail(&format!("e2e-udp:{}", cfg.label()), &format!("{} applications x {} targets: datagrams lost, altered, misdelivered or mislabelled: `{}`", apps, targets, r));
                 }
             }
+            // a datagram that cannot be relayed (too large once the protocol's own bytes are added — towards the server, or an
+            // answer on its way back) is lost by itself: the other applications' datagrams before and after it are not
+            for f in ["server-udp-oversized-reply", "local-udp-oversized"] {
+                s.run(&format!("e2e.fault {} {} -", w, f));
+                let r = s.run(&format!("e2e.udpm {} apps=2 targets=2 per=1 seed={}", w, rng.below(1 << 40)));
+                if r != "up=ok down=ok stray=0" {
+                    s.oracle_fail(&format!("e2e-udp-after-unrelayable:{}", cfg.label()), &format!("after a datagram that could not be relayed ({}), other applications' datagrams were lost or misdelivered: `{}`", f, r));
+                }
+            }
             s.run(&format!("e2e.stop {}", w));
             s.mark_nontrivial();
         }
